@@ -10,7 +10,7 @@ import json,sys,re
 d,prop,out=sys.argv[1:4]
 m=json.load(open(d+"/meta.json"))
 res={}
-for mm in re.finditer(r'^\[(C\d+)\] rc=(\d+) violations=(\d+)\s*(.*)$', out, re.M):
+for mm in re.finditer(r'^\[(C\d+)\] rc=(\d+) violations=(\d+)[ \t]*(.*)$', out, re.M):
     res[mm.group(1)]={"exit":int(mm.group(2)),"violations":int(mm.group(3)),"clauses":sorted(set(re.findall(r'clause=(C\d+\.[\w-]+)', mm.group(4))))}
 if "PATCH-DOES-NOT-APPLY" in out: res={"error":"patch does not apply to /repo HEAD"}
 prev=m.get("checks")
